@@ -232,6 +232,9 @@ def probes(ctx) -> None:
 
 
 def run(ctx) -> None:
+    from . import C08
+
+    C08.eqhash_agreement(ctx, ('forml.provider', 'forml.setup'), floor=3)
     probes(ctx)
     merge_cases(ctx)
     provider_bank(ctx)
